@@ -2047,7 +2047,7 @@ scale, negate, lscale, get_entry, index_to_coord for idx >= k, ==, is_equal_spar
 rowNormsNoReset_general_spec, findnz_shifted, indexToCoord_general_spec say what is computed there. NOT sent: index_to_coord below \
 colptr[0] (usize underflow: usize::MAX in release, panic in debug) and the builders that restart at index 0 (dropzeros, \
 to_triu, transpose, select_rows, set_entry, rscale, lrscale, hvcat): there the model is not tied to the code".to_string());
-        s.note("not covered (listed): src/algebra/dense/* and sparsevector (sdp-only, crate-private), _csc_symv_safe (test-only twin of \
+        s.note("not covered (listed): sparsevector (sdp-only, crate-private), Display for the dense Matrix, _csc_symv_safe (test-only twin of \
 the unchecked symv), csc/utils.rs fill/colcount helpers (model CscBlocks.lean, channels in C11/C12), algebra/utils.rs \
 invperm / sortperm / findmax / position_all (crate-private; invperm in C12, the rest chordal-only)".to_string());
     }
